@@ -47,7 +47,7 @@ CLAIMED = {
         note=E1 + " Finite content alphabets (encode/format realise symbolic contents). Outside: int() views, longer sequences.", ref="DESIGN.md section 3 C09"),
     "C10": dict(
         technique="bounded symbolic execution of sequences of public tree operations; from-scratch recomputation and object-identity snapshots as oracle",
-        text="For 3 initial trees and every sequence of 2 (thorough 3) of 16 public operations with symbolic operands, after every step every tree object held (including an 'already emitted' copy) has size/hash/equality equal to from-scratch recomputation and consistent parent links; read-only accessors and copy-producing operators leave their inputs identical, object identities included.",
+        text="For 3 initial trees and every sequence of 2 of 16 public operations (quick: reduced operand and follow-up sets) with symbolic operands, after every step every tree object held (including an 'already emitted' copy) has size/hash/equality equal to from-scratch recomputation and consistent parent links; read-only accessors and copy-producing operators leave their inputs identical, object identities included.",
         note=E1 + " Outside: longer sequences, parser-internal ParserDerivationTree.", ref="DESIGN.md section 3 C10"),
     "C11": dict(
         technique="bounded symbolic execution of an evaluate/edit/evaluate history on long-lived constraint+evaluator objects vs separate objects with empty caches",
@@ -72,7 +72,7 @@ CLAIMED = {
         note=E1 + " Outside: random generators, converters, longer operator histories.", ref="DESIGN.md section 3 C16"),
     "C18": dict(
         technique="bounded symbolic execution of the real adaptive step (extracted from the current source) inside the real generate(), observing an unrelated spec object; symbolic parse-request histories over two spec objects",
-        text="For every fitness/diversity trajectory in the bound (1 generation with threshold-straddling value sets, 2-3 generations with reduced sets) and both ways of ending the run (exhausted, abandoned+closed), all observables of an unrelated spec object B - repetition caps, compiled parse table, tuner start values - are unchanged afterwards; parse answers of two spec objects with look-alike regex/literal terminals are independent of the request history.",
+        text="For every fitness/diversity trajectory in the bound (1 generation with threshold-straddling value sets, 2 generations with reduced sets) and both ways of ending the run (exhausted, abandoned+closed), all observables of an unrelated spec object B - repetition caps, compiled parse table, tuner start values - are unchanged afterwards; parse answers of two spec objects with look-alike regex/literal terminals are independent of the request history.",
         note=E1 + " Outside: interleaving two active runs (the cap is process-wide by design while a run is active), FandangoIO singletons.", ref="DESIGN.md section 3 C18"),
     "C19": dict(
         technique="bounded symbolic execution of the real PacketForecaster along every message history in the depth bound; z3 regular-expression reference for continuations and completeness",
